@@ -820,4 +820,86 @@ pub async fn convert_tiles_container(
     dict(p="C16", id="ctl-pm-tileid-digit-if-form", file="versatiles_container/src/container/pmtiles/types/tile_id.rs", control=True, checks=["C16", "C01", "C19"],
          old="		d += s * s * ((3 * rx) ^ ry) as i64;", new="		let digit: i64 = if rx == 1 { 3 - ry as i64 } else { ry as i64 };\n		d += digit * s * s;",
          why="the same digit table written with a branch"),
+    # ---------------------------------------------------------------- refactored AND broken: the spelling the second reading
+    # (normalize.py) and the generalised rules accept, with the defect inside it
+    dict(p="C10", id="merged-push-form-raw-blob", file="versatiles_pipeline/src/operations/read/from_vectortiles_merged.rs", checks=["C10"],
+         old="""				blob = decompress(blob, &source.get_parameters().tile_compression)?;
+				blobs.push(blob);""",
+         new="""				let _decoded = decompress(blob.clone(), &source.get_parameters().tile_compression)?;
+				blobs.push(blob);""",
+         why="the decompressed copy is thrown away, the still-compressed blob is merged"),
+    dict(p="C10", id="tags-chunks-exact-swapped", file="versatiles_geometry/src/vector_tile/property_manager.rs", checks=["C10", "C11"],
+         old="""		for i in 0..tag_ids.len().div(2) {
+			let tag_key = tag_ids[i * 2];
+			let tag_val = tag_ids[i * 2 + 1];""",
+         new="""		for pair in tag_ids.chunks_exact(2) {
+			let tag_key = pair[1];
+			let tag_val = pair[0];""",
+         why="chunked spelling of the pair loop with key and value index swapped",
+         edits=[("use std::{collections::HashMap, fmt::Debug, hash::Hash, ops::Div};", "use std::{collections::HashMap, fmt::Debug, hash::Hash};")]),
+    dict(p="C08", id="overlay-chain-collects-found-tiles", file="versatiles_pipeline/src/operations/read/from_overlayed.rs", checks=["C08", "C02"],
+         old="""				for (index, t) in tiles.iter().enumerate() {
+					if t.is_none() {
+						bbox_left
+							.include_coord3(&bbox.get_coord3_by_index(index as u32).unwrap())
+							.unwrap();
+					}
+				}""",
+         new="""				tiles
+					.iter()
+					.enumerate()
+					.filter(|(_, t)| t.is_some())
+					.map(|(index, _)| bbox.get_coord3_by_index(index as u32).unwrap())
+					.for_each(|coord| bbox_left.include_coord3(&coord).unwrap());""",
+         why="iterator-chain spelling with the filter inverted: the next source is asked for the tiles that were already found"),
+    dict(p="C06", id="lookup-helper-forgets-swap", file="versatiles_container/src/container/converter.rs", checks=["C06", "C03"],
+         old="""		let mut coord = *coord;
+		if self.converter_parameters.swap_xy {
+			coord.swap_xy();
+		}
+		if self.converter_parameters.flip_y {
+			coord.flip_y();
+		}""",
+         new="""		let mut coord = *coord;
+		if self.converter_parameters.flip_y {
+			coord.flip_y();
+		}""",
+         why="the lookup no longer undoes swap_xy (control C06_1 moves these lines into a helper; this is the defect the D4 rule exists for)"),
+    dict(p="C16", id="pm-tileid-base-sum-wrong-power", file="versatiles_container/src/container/pmtiles/types/tile_id.rs", checks=["C16", "C01"],
+         old="""	let mut acc: i64 = 0;
+	for t_z in 0..(z as i64) {
+		acc += 1i64 << (t_z * 2)
+	}""",
+         new="""	let acc: i64 = (0..(z as i64)).map(|t_z| 1i64 << (t_z * 2 + 1)).sum();""",
+         why="iterator spelling of the level base with the wrong power of two"),
+    dict(p="C18", id="unknown-op-match-defaults", file="versatiles_pipeline/src/factory.rs", checks=["C18"],
+         old="""			.ok_or_else(|| anyhow!("read operation '{}' unknown", node.name))?;""",
+         new="""			.unwrap_or_else(|| self.read_ops.values().next().unwrap());""",
+         why="an unknown read operation silently becomes the first registered one"),
+    dict(p="C05", id="status-match-err-is-404", file="versatiles/src/tools/server/tile_server.rs", checks=["C05"],
+         old="""				if let Ok(Some(response)) = response {
+					log::info!("send response for tile request: {path}");
+					ok_data(response, target_compressions)
+				} else if let Err(err) = response {
+					log::warn!("send 400 for tile request: {path}. Reason: {err}");
+					error_400()
+				} else {
+					log::warn!("send 404 for tile request: {path}");
+					error_404()
+				}""",
+         new="""				match response {
+					Ok(Some(response)) => {
+						log::info!("send response for tile request: {path}");
+						ok_data(response, target_compressions)
+					}
+					Err(err) => {
+						log::warn!("send 404 for tile request: {path}. Reason: {err}");
+						error_404()
+					}
+					Ok(None) => {
+						log::warn!("send 400 for tile request: {path}");
+						error_400()
+					}
+				}""",
+         why="match spelling with the 400 / 404 answers exchanged"),
 ]
